@@ -430,6 +430,7 @@ func c05(r *core.Report) {
 	c05Single(r)
 	c05DeepObject(r)
 	c05Narrow(r)
+	c05Text(r)
 	_ = p
 }
 
@@ -959,6 +960,53 @@ func c05Narrow(r *core.Report) {
 		}
 		if n == 0 {
 			core.Fail("no conversion of a parsed integer found (parsePrimitiveCase's int32 branch expected)")
+		}
+	})
+}
+
+// c05Text: two library calls whose misuse changes the decoded value without any error. ParseFloat
+// with bitSize 32 returns the nearest float32 (0.1 becomes 0.10000000149011612); strings.Trim /
+// TrimLeft / TrimRight take a SET of characters, so a variable passed as cutset is a prefix or
+// suffix mistaken for one (TrimLeft(";id=dave", ";id=") is "ave").
+func c05Text(r *core.Report) {
+	p := r.Prog
+	info := p.Pkg("openapi3filter").TypesInfo
+	r.RunRule("C05.text", "the decoded value is the value the text denotes: in the parameter and body decoders of openapi3filter every strconv.ParseFloat uses the constant bit size 64, and every strings.Trim / TrimLeft / TrimRight is given a constant character set (a computed string there is a prefix or suffix: TrimPrefix / TrimSuffix / slicing is meant)", 1, func() {
+		perFn := map[string]int{}
+		for _, d := range p.AllDecls("openapi3filter") {
+			if d.Body == nil {
+				continue
+			}
+			ast.Inspect(d.Body, func(n ast.Node) bool {
+				c, ok := n.(*ast.CallExpr)
+				if !ok {
+					return true
+				}
+				f := core.CalleeOf(info, c)
+				if f == nil || f.Pkg() == nil {
+					return true
+				}
+				fname := core.FuncName(d)
+				switch f.FullName() {
+				case "strconv.ParseFloat":
+					perFn[fname]++
+					key := fmt.Sprintf("text:%s/ParseFloat#%d", fname, perFn[fname])
+					if v, ok := intConst(info, c.Args[1]); ok && v == 64 {
+						r.OK(key, p.Pos(c.Pos()), "bit size 64")
+					} else {
+						r.Bad(key, p.Pos(c.Pos()), fmt.Sprintf("strconv.ParseFloat(%s, %s): with a bit size other than 64 the result is rounded to the nearest float32 and is no longer the number written in the request (0.1 -> 0.10000000149011612, 16777217 -> 16777216); bounds, enum and multipleOf are then checked against another value", core.ExprStr(c.Args[0]), core.ExprStr(c.Args[1])))
+					}
+				case "strings.Trim", "strings.TrimLeft", "strings.TrimRight":
+					perFn[fname]++
+					key := fmt.Sprintf("text:%s/%s#%d", fname, f.Name(), perFn[fname])
+					if _, ok := strConst(info, c.Args[1]); ok {
+						r.OK(key, p.Pos(c.Pos()), "constant character set")
+					} else {
+						r.Bad(key, p.Pos(c.Pos()), fmt.Sprintf("strings.%s(%s, %s): the second argument is a set of characters, not a prefix/suffix: every leading (trailing) character of the value that occurs anywhere in %s is removed too (`;id=dave` with prefix `;id=` decodes to `ave`)", f.Name(), core.ExprStr(c.Args[0]), core.ExprStr(c.Args[1]), core.ExprStr(c.Args[1])))
+					}
+				}
+				return true
+			})
 		}
 	})
 }
